@@ -239,7 +239,8 @@ OnTx(S, tx) ==
 OnApp(S, c, t, arg, r) ==
     IF ~r \/ ~S.alive THEN S
     ELSE CASE c = "version_req" -> [S EXCEPT !.want = S.want \cup {[k |-> "ver", t |-> t]}]
-           [] c = "param_req"   -> [S EXCEPT !.want = S.want \cup {[k |-> "param", t |-> t]}]
+           [] c \in {"param_req", "param_update"}                 \* both APIs send LL_CONNECTION_PARAM_REQ (param_update may fall
+                                -> [S EXCEPT !.want = S.want \cup {[k |-> "param", t |-> t]}]   \* back to L2CAP: then `want` stays)
            [] c = "phy_req"     -> [S EXCEPT !.want = S.want \cup {[k |-> "phy", t |-> t]}]
            [] c = "disconnect"  -> [S EXCEPT !.want = S.want \cup {[k |-> "term", t |-> t]}, !.closeOk = S.closeOk \cup {arg}]
            [] OTHER -> S
@@ -309,8 +310,10 @@ React == \E i \in 1..Len(st.owed) : \E k \in st.owed[i].kinds \ {"none", "close"
 Ignore == /\ Len(st.owed) > 0 /\ "none" \in st.owed[1].kinds
           /\ Step([st EXCEPT !.owed = Tail(st.owed)])
 
-App == \E c \in {"version_req", "param_req", "phy_req"} :
-          /\ st.alive /\ ~\E q \in st.want \cup st.pend : TRUE
+\* several peripheral initiated procedures may be outstanding at the same time (one of each kind)
+AppKind(c) == CASE c = "version_req" -> "ver" [] c = "phy_req" -> "phy" [] OTHER -> "param"
+App == \E c \in {"version_req", "param_req", "param_update", "phy_req"} :
+          /\ st.alive /\ ~\E q \in st.want \cup st.pend : q.k = AppKind(c)
           /\ Step(OnApp(st, c, st.now, 0, TRUE))
 
 Initiate == \E q \in st.want :
@@ -349,6 +352,15 @@ MalformedGetsUnknownRsp ==
 \* the link ends with "LL response timeout" only while an own procedure is unanswered long enough
 TimeoutOnlyWhenPending == [][(st.alive /\ ~st'.alive /\ st.closeOk = {} /\ ~st.sawTimeout) => \E q \in st.pend : Expired(st, q, st.now)]_vars
 VersionOnce == st.verTx <= 1
+\* 5.2: the response timer of a procedure is stopped only by a PDU that answers THAT procedure (its response, or a
+\* reject / unknown response naming its request; LL_REJECT_IND names nothing) - or the connection ends
+OnlyItsAnswerStopsTheTimer ==
+    [][\A q \in st.pend : (st'.alive /\ q \notin st'.pend) =>
+            \E p \in RxAlphabet : q.k \in AnswersTo(p) /\ st' = OnRx(st, p)]_vars
+\* ... and a PDU that names another procedure's request leaves it running
+OtherAnswerKeepsTheTimer ==
+    [][\A q \in st.pend : \A p \in RxAlphabet :
+            (st' = OnRx(st, p) /\ q.k \notin AnswersTo(p) /\ st'.alive) => q \in st'.pend]_vars
 \* the table never demands the impossible: every mandatory entry has a reaction that Fits accepts
 Satisfiable ==
     \A i \in 1..Len(st.owed) : LET e == st.owed[i] IN
